@@ -76,6 +76,19 @@ def gen_history(seed, case, nops, profile, oracles=(), on_step=None):
         import netgen
         prefix, _info = netgen.build(rng, depth=rng.choice([1, 1, 2]), max_leaf=2, max_children=3,
                                      unnamed_rate=0.2, unnamed_cables=True)
+    elif profile == 'naming' and rng.random() < 0.3:
+        # siblings of one scope whose identifiers differ only in letter case, built while no EDIF policy
+        # looks, then the policy arrives from above (assignment to the root): must be refused whatever
+        # the scope (ports, cables, instances)
+        from ir_world import tok_of_s
+        rel = rng.choice(['ports', 'cables', 'children'])
+        a, b = rng.choice([('Ab', 'aB'), ('sig_A', 'SIG_a'), ('x1', 'X1')])
+        ident = tok_of_s('EDIF.identifier')
+        items = '0' if rel == 'children' else '1'
+        prefix = [['new', 'definition', tok_of_s('d'), '0'],
+                  ['create', rel, '0', tok_of_s('n1'), '1', ident, 's:' + tok_of_s(a), items, '~'],
+                  ['create', rel, '0', tok_of_s('n2'), '1', ident, 's:' + tok_of_s(b), items, '~'],
+                  ['dset', '0', tok_of_s('.NS'), 's:' + tok_of_s('EDIF')]]
     try:
         for j in range(nops + len(prefix)):
             op = prefix[j] if j < len(prefix) else g.next_op()
